@@ -28,6 +28,8 @@ AXES = [
     ('unused_top', [False, True]),
     ('whitening', ['mixing', 'absent']),
     ('channel_map', ['identity', 'perm', 'sub_high']),
+    ('twice', [False, True]),            # the same creator converts twice
+    ('wide', [False, True]),             # 14 channels: more than the 12-channel neighbourhood
     ('label', ['', 'probe00']),
     ('factor', [1, 2.5]),
 ]
@@ -61,6 +63,8 @@ def make_spec(cfg, fill):
             'sample_rate': 25000.0,
             'tsv': ({'cluster_KSLabel.tsv': {'field': 'KSLabel', 'values': {0: 'good', 1: 'mua'}}}
                     if cfg['kslabel'] else {})}
+    if cfg.get('wide'):
+        spec.update(n_channels=14, geometry='col14')
     return spec
 
 
@@ -179,7 +183,8 @@ def run_case(case, acc, order):
     cfg = case['cfg']
     spec = make_spec(cfg, case['fill'])
     extra = [('temp_wh.dat', b'\x00' * 64)] if cfg['temp_wh'] else []
-    res = ac.run_convert(spec=spec, label=cfg['label'], factor=cfg['factor'], extra_files=extra)
+    res = ac.run_convert(spec=spec, label=cfg['label'], factor=cfg['factor'], extra_files=extra,
+                         twice=cfg.get('twice', False))
     acc.state()
     ndev = sum(1 for a, v in AXES if cfg[a] != v[0])
     acc.step(ndev >= 1, 'convert:%d-deviations' % ndev)
@@ -208,7 +213,7 @@ def run_case(case, acc, order):
 
 
 def explore(ctx):
-    K = len(AXES) if ctx.thorough else 5
+    K = len(AXES) if ctx.thorough else 4
     cases = [{'cfg': c, 'fill': ctx.seed} for c in configs(K)]
     ctx.run_cases(run_case, cases, sweep='deviation-bounded')
     ctx.bounds = {'axes': {a: [str(x) for x in v] for a, v in AXES}, 'max_deviations': K}
